@@ -245,7 +245,16 @@ def build_catalogue(check, seed, size):
                 fn = r.choice(['field_table', 'encode_table_value'])
                 base = {'op': 'enc', 'fn': fn, 'v': to_desc(v)}
             elif k < 0.55:
-                v = [g.table(2, 4), g.table(2, 3), g.array(2)]
+                kk = r.random()
+                if kk < 0.4:
+                    v = [g.table(2, 4), g.table(2, 3), g.array(2)]
+                elif kk < 0.6:
+                    v = [g.text(6) or 'q' for _ in range(r.randint(2, 6))]
+                elif kk < 0.8:
+                    v = [r.randint(-300, 300) for _ in range(r.randint(2, 6))]
+                else:
+                    v = [[3, 1, 2], ['b', 'a'], {'y': ['d', 'c'], 'x': [2, 1]},
+                         bytearray(b'zyx'), g.value(1)]
                 base = {'op': 'enc', 'fn': 'field_array', 'v': to_desc(v)}
             elif k < 0.85:
                 d = g.frame(marker, (('method', 3), ('header', 2)))
@@ -361,6 +370,45 @@ def build_catalogue(check, seed, size):
 
 # ------------------------------------------------------------------- traces
 
+def setattr_op(r, ref, src_op):
+    """Attribute assignment on a held constructed frame."""
+    if src_op['op'] != 'construct':
+        return None
+    f = src_op['frame']
+    if f['k'] == 'method':
+        cls = gen.classes()[f['cls']]
+        slots = list(cls.__slots__)
+        if not slots:
+            return None
+        name = r.choice(slots)
+        wire = cls.amqp_type(name)
+        on_props = False
+    elif f['k'] == 'header':
+        P = lib.commands.Basic.Properties
+        name = r.choice(['headers', 'headers', 'app_id', 'priority',
+                         'timestamp'])
+        wire = P.amqp_type(name)
+        on_props = True
+    else:
+        return None
+    if wire == 'table':
+        v = r.choice([None, None, {'d': []}, {'d': [['z', 1], ['a', 2]]}])
+    elif wire == 'shortstr':
+        v = r.choice(['', 'changed', None])
+    elif wire == 'bit':
+        v = r.random() < 0.5
+    elif wire in ('octet', 'short', 'long', 'longlong'):
+        v = r.choice([0, 1, 7])
+    elif wire == 'longstr':
+        v = r.choice(['', 'changed'])
+    elif wire == 'timestamp':
+        v = None
+    else:
+        return None
+    return {'op': 'setattr', 'ref': ref, 'name': name, 'v': v,
+            'on_props': on_props}
+
+
 def gen_schedule(r, nthreads, est_steps):
     if nthreads == 1:
         return [], 'none'
@@ -423,8 +471,14 @@ def gen_trace(rng, check, population, tier, cat):
                          ['op'] in ('construct', 'unmarshal', 'dec')]
                 if cands:
                     ref = list(r.choice(cands))
-                    if r.random() < (0.45 if check == 'C16' else 0.3):
+                    c2 = r.random()
+                    if c2 < (0.40 if check == 'C16' else 0.25):
                         prog.append({'op': 'mutate', 'ref': ref})
+                    elif c2 < (0.50 if check == 'C16' else 0.40):
+                        sop = (threads[ref[0]] if ref[0] < len(threads)
+                               else prog)[ref[1]]
+                        sa = setattr_op(r, ref, sop)
+                        prog.append(sa or {'op': 'marshal_slot', 'ref': ref})
                     else:
                         prog.append({'op': 'marshal_slot', 'ref': ref})
                     continue
